@@ -760,6 +760,29 @@ func TestC13Prune(t *testing.T) {
 				}
 				hist = append(hist, [2]string{fmt.Sprint(fx.valID[sb.vi]), fmt.Sprint(sb.h)})
 			}
+			// valset rotation between the submissions and the pruning: a new snapshot (other members, other shares)
+			// becomes current, so that suppliers who were outside the snapshot when they attested are inside it at
+			// prune time (and the other way round); the property is about what the validators DID
+			if r.Rng.Intn(3) == 0 {
+				env2 := r.q06GenEnv(fx, 8)
+				kept2 := env2.vals[:0]
+				env2.total = 0
+				for _, v := range env2.vals {
+					if _, ok := fx.idVal[v.id]; ok {
+						kept2 = append(kept2, v)
+						env2.total += v.share
+					}
+				}
+				env2.vals = kept2
+				if r.Rng.Intn(2) == 0 {
+					env2.total *= int64(2 + r.Rng.Intn(8))
+				}
+				if err := fx.writeEnv(ctx, env2); err != nil {
+					t.Fatal(err)
+				}
+				c.obs = fx.readObs(ctx)
+				r.Stat("prune.rotated_snapshot")
+			}
 			evs := c.evPairs(id)
 			jailedBefore := map[int]bool{}
 			for vi := 0; vi < fx.n; vi++ {
